@@ -79,9 +79,10 @@ Proof.
       assert (Hon2 : on_key n L (cfg th2)) by (apply (HC _ _ Ho); right; auto).
       destruct Hon as (_ & _ & HlkA & _ & HcpA). destruct Hon2 as (_ & _ & HlkB & _ & _).
       assert (Hla : locked (tpc th) = true).
-      { destruct Hwp as [->|[->|[Hp _]]]; auto. exfalso.
-        destruct (HW _ _ Ha) as (W1 & W2 & _). rewrite Hp in W2; simpl in W2. unfold cert_prog in HcpA.
-        destruct (c_prog (cfg th)); simpl in *; intuition congruence. }
+      { destruct Hwp as [->|[->|Hrest]]; auto. exfalso.
+        destruct (HW _ _ Ha) as (W1 & W2 & _). unfold cert_prog in HcpA.
+        destruct Hrest as [[Hp _]|[Hp|[Hp _]]]; rewrite Hp in W2; simpl in W2;
+          destruct (c_prog (cfg th)); simpl in *; intuition congruence. }
       pose proof (HL _ _ Ha Hla) as O1. pose proof (HL _ _ Ho Hl2) as O2. rewrite HlkA in O1. rewrite HlkB in O2. congruence. }
     split.
     + intros Hp. rewrite Hfr; auto. rewrite Hp; auto.
